@@ -3,7 +3,6 @@ package harness
 import (
 	"fmt"
 	"reflect"
-	"regexp"
 	"sort"
 	"strings"
 	"time"
@@ -95,7 +94,30 @@ type Result struct {
 	destPtr reflect.Value
 }
 
-var addrRx = regexp.MustCompile(`0x[0-9a-f]{6,}`)
+// scrubAddr replaces printed addresses (0x followed by >= 6 hex digits) so that
+// logs and verdicts never depend on where the allocator put something.
+func scrubAddr(s string) string {
+	if !strings.Contains(s, "0x") {
+		return s
+	}
+	var sb strings.Builder
+	for i := 0; i < len(s); {
+		if s[i] == '0' && i+1 < len(s) && s[i+1] == 'x' {
+			j := i + 2
+			for j < len(s) && ((s[j] >= '0' && s[j] <= '9') || (s[j] >= 'a' && s[j] <= 'f')) {
+				j++
+			}
+			if j-i-2 >= 6 {
+				sb.WriteString("0xADDR")
+				i = j
+				continue
+			}
+		}
+		sb.WriteByte(s[i])
+		i++
+	}
+	return sb.String()
+}
 
 func recIssue(key string, i *z.ZogIssue) IssueRec {
 	if i == nil {
@@ -107,10 +129,10 @@ func recIssue(key string, i *z.ZogIssue) IssueRec {
 	}
 	if i.Err != nil {
 		// error texts may print channel / func / pointer values: keep the log address-free
-		r.Err = addrRx.ReplaceAllString(i.Err.Error(), "0xADDR")
+		r.Err = scrubAddr(i.Err.Error())
 	}
-	r.Msg = addrRx.ReplaceAllString(r.Msg, "0xADDR")
-	r.Value = addrRx.ReplaceAllString(safeCanon(i.Value), "0xADDR")
+	r.Msg = scrubAddr(r.Msg)
+	r.Value = scrubAddr(safeCanon(i.Value))
 	return r
 }
 
@@ -224,6 +246,10 @@ type X struct {
 	Sig        strings.Builder // state signature material
 	digests    []string
 	AllEvents  []string
+	Replay     bool
+	genRng     *Rng // run-time generation (preemption points); results are stored in the world
+	given      any  // op.Arg == "given": hand this Go value to Parse as is
+	leanRecs   [8]*OpRec
 }
 
 func NewX(w *World, dec *Dec) *X {
@@ -375,7 +401,7 @@ func (x *X) Exec(tag string, op *Op) *Result {
 	res.Calls = rec.Calls
 	res.FmtSeen = rec.FmtSeen
 	res.Injected = rec.Injected
-	res.Dest = addrRx.ReplaceAllString(CanonV(dest.Elem()), "0xADDR")
+	res.Dest = scrubAddr(CanonV(dest.Elem()))
 	for _, f := range rec.Injected {
 		x.Faults[f]++
 	}
@@ -413,7 +439,14 @@ func (x *X) Collect(tag string, how string, res *Result) (sanitized string, pani
 		}
 	}()
 	x.R.Event("collect " + tag + " " + how)
-	switch raw := res.raw.(type) {
+	sanitized = collectRaw(how, res.raw)
+	x.Ops++
+	return
+}
+
+// collectRaw hands issues back to the library with the named helper.
+func collectRaw(how string, rawAny any) (sanitized string) {
+	switch raw := rawAny.(type) {
 	case z.ZogIssueMap:
 		switch how {
 		case "CollectMap":
@@ -442,7 +475,6 @@ func (x *X) Collect(tag string, how string, res *Result) (sanitized string, pani
 			}
 		}
 	}
-	x.Ops++
 	return
 }
 
